@@ -24,6 +24,11 @@ import numpy as np
 # classes whose configurations may legitimately yield no operator presented as linear (then nothing is to be checked)
 OPTIONAL_CLASSES = {"CalculusMixed"}
 
+# slugs of the `known:` findings of C06 that are currently recorded (set by c06.generate): grid configurations that are
+# exactly a recorded witness carry `known_id` and are left out while the finding is recorded (the corpus replays them)
+KNOWN_IDS: set = set()
+KNOWN_SUM_INITIAL = "sum-initial-affine"
+
 
 class NotPresentedAsLinear(Exception):
     """the construction returned an object that is not a LinearOperator: nothing to check for C06"""
@@ -37,6 +42,8 @@ EXTRA_CLASSES = [
     "GenericLinearOperator",  # LinearOperator(eval_fn=..., adj_fn=...)
     "MixedDtype",  # real-valued parameters (filter, diagonal, matrix, scalar) with a complex input dtype
     "CalculusMixed",  # results of operator arithmetic between a LinearOperator and a non-linear Operator
+    "WrappedOptions",  # every option of the numpy functions wrapped by linop_from_function (Pad, Sum, Reshape, Transpose): rejected or linear
+    "OutsideLinop",  # LinearOperators constructed outside scico.linop: SquaredL2Loss.hessian, flax PaddedCircularConvolve
 ]
 
 
@@ -75,6 +82,33 @@ def _extra_grid(name, rng):
             for opn in ("add", "sub", "radd", "rsub", "compose", "rcompose"):
                 out.append({"left": left, "op": opn, "nonlinear": "abs", "shape": [4], "dtype": "float64"})
         return out
+    if name == "WrappedOptions":
+        out = []
+        for dt in ("float64", "complex128"):
+            for mode in ("constant", "edge", "linear_ramp", "maximum", "mean", "median", "minimum", "reflect", "symmetric", "wrap", "empty"):
+                out.append({"op": "Pad", "shape": [4], "dtype": dt, "kwargs": {"mode": mode}})
+            for kw in ({"mode": "constant", "constant_values": 0.0}, {"mode": "constant", "constant_values": 2.0}, {"mode": "linear_ramp", "end_values": 0.0},
+                       {"mode": "linear_ramp", "end_values": 1.0}, {"mode": "mean", "stat_length": 2}, {"mode": "reflect", "reflect_type": "odd"},
+                       {"mode": "symmetric", "reflect_type": "odd"}, {"mode": "maximum", "stat_length": 2}):
+                out.append({"op": "Pad", "shape": [4], "dtype": dt, "kwargs": kw})
+            for kw in ({}, {"initial": 0.0}, {"where": [True, False, True, True]}, {"axis": 0, "keepdims": True}, {"dtype": "complex128"}):
+                out.append({"op": "Sum", "shape": [4], "dtype": dt, "kwargs": kw})
+            for kw in ({"initial": 1.5}, {"axis": 0, "keepdims": True, "initial": 2.0}):
+                out.append({"op": "Sum", "shape": [4], "dtype": dt, "kwargs": kw, "known_id": KNOWN_SUM_INITIAL})
+            out.append({"op": "Reshape", "shape": [2, 3], "dtype": dt, "args": [[3, 2]], "kwargs": {"order": "F"}})
+            out.append({"op": "Reshape", "shape": [2, 3], "dtype": dt, "args": [[6]], "kwargs": {}})
+            out.append({"op": "Transpose", "shape": [2, 3, 2], "dtype": dt, "args": [[2, 0, 1]], "kwargs": {}})
+            out.append({"op": "Transpose", "shape": [2, 3], "dtype": dt, "args": [], "kwargs": {}})
+        return out
+    if name == "OutsideLinop":
+        return [
+            {"kind": "sql2_hessian", "shape": [4], "dtype": "float64", "weighted": False},
+            {"kind": "sql2_hessian", "shape": [4], "dtype": "float64", "weighted": True},
+            {"kind": "sql2_hessian", "shape": [4], "dtype": "complex128", "weighted": True},
+            {"kind": "sql2_hessian_fd", "shape": [3, 4], "dtype": "float64", "weighted": True},
+            {"kind": "padded_circ_conv", "shape": [6, 5, 2], "dtype": "float32", "ksize": 3},
+            {"kind": "padded_circ_conv", "shape": [5, 5, 1], "dtype": "float64", "ksize": [3, 5]},
+        ]
     if name == "GenericLinearOperator":
         return [
             {"kind": "roll", "shape": [5], "dtype": "float64", "adj": True},
@@ -85,6 +119,14 @@ def _extra_grid(name, rng):
             {"kind": "take", "shape": [6], "dtype": "float64", "adj": False},
             {"kind": "dynslice", "shape": [6], "dtype": "float64", "adj": False},
             {"kind": "cumsum_rev", "shape": [5], "dtype": "float64", "adj": False},
+            # control flow with input-independent trip counts / predicates (unrolled by the translator)
+            {"kind": "fori_static", "shape": [5], "dtype": "float64", "adj": False},
+            {"kind": "fori_static", "shape": [5], "dtype": "complex128", "adj": False},
+            {"kind": "while_const_bound", "shape": [5], "dtype": "float64", "adj": False},
+            {"kind": "scan_carry", "shape": [5], "dtype": "float64", "adj": False},
+            {"kind": "scan_reverse_2d", "shape": [3, 4], "dtype": "complex128", "adj": False},
+            {"kind": "cond_const", "shape": [5], "dtype": "float64", "adj": False},
+            {"kind": "switch_const", "shape": [5], "dtype": "float64", "adj": False},
         ]
     raise KeyError(name)
 
@@ -110,6 +152,8 @@ def build(name, c):
             return linop.Pad(shape, input_dtype=dt, pad_width=1, constant_values=1.0)
         if w == "pad_linear_ramp":
             return linop.Pad(shape, input_dtype=dt, pad_width=1, mode="linear_ramp", end_values=2.0)
+        if w == "sum_initial":
+            return linop.Sum(shape, input_dtype=dt, initial=1.0)
         if w == "jacobian_include_eval":
             from scico.operator import Operator
 
@@ -226,6 +270,38 @@ def build(name, c):
         if not isinstance(R, linop.LinearOperator):
             raise NotPresentedAsLinear(type(R).__name__)
         return R
+    if name == "WrappedOptions":
+        kw = dict(c["kwargs"])
+        if "where" in kw:
+            kw["where"] = jnp.asarray(np.array(kw["where"]))
+        if "dtype" in kw:
+            kw["dtype"] = np.dtype(kw["dtype"]).type
+        args = [tuple(a) if isinstance(a, list) else a for a in c.get("args", [])]
+        try:
+            if c["op"] == "Pad":
+                return linop.Pad(shape, input_dtype=dt, pad_width=2, **kw)
+            return getattr(linop, c["op"])(shape, *args, input_dtype=dt, **kw)
+        except ValueError as e:
+            # the constructor rejects the option: the object is never presented as a linear operator
+            raise NotPresentedAsLinear(f"rejected:{type(e).__name__}") from e
+    if name == "OutsideLinop":
+        k = c["kind"]
+        if k.startswith("sql2_hessian"):
+            from scico import loss
+
+            n = int(np.prod(shape))
+            if k == "sql2_hessian_fd":
+                A = linop.FiniteDifference(shape, input_dtype=dt, circular=True)
+            else:
+                A = linop.MatrixOperator(jnp.asarray((np.arange(n * n).reshape(n, n) / 8 - 1).astype(dt) * ((1 + 0.5j) if cplx else 1)))
+            y = jnp.zeros(A.output_shape, A.output_dtype)
+            W = linop.Diagonal(jnp.asarray((np.arange(1, int(np.prod(A.output_shape)) + 1) / 4).reshape(A.output_shape))) if c["weighted"] else None
+            return loss.SquaredL2Loss(y=y, A=A, W=W, scale=0.75).hessian
+        if k == "padded_circ_conv":
+            from scico.flax.examples.data_preprocessing import PaddedCircularConvolve
+
+            return PaddedCircularConvolve(tuple(shape[:2]), shape[2], c["ksize"] if isinstance(c["ksize"], int) else tuple(c["ksize"]), 1.5, dtype=dt)
+        raise KeyError(k)
     if name == "GenericLinearOperator":
         k = c["kind"]
         if k == "roll":
@@ -247,8 +323,56 @@ def build(name, c):
             return linop.LinearOperator(shape, output_shape=(3,), eval_fn=lambda x: jax.lax.dynamic_slice(x, (start,), (3,)), input_dtype=dt, output_dtype=dt)
         if k == "cumsum_rev":
             return linop.LinearOperator(shape, output_shape=shape, eval_fn=lambda x: jnp.cumsum(x[::-1]), input_dtype=dt, output_dtype=dt)
+        from jax import lax
+
+        if k == "fori_static":  # three smoothing sweeps, weights depend on the sweep number: lowers to `scan`
+            f = lambda x: lax.fori_loop(0, 3, lambda i, v: v + jnp.roll(v, 1) * (i + 1.0) / 4, x)
+            return linop.LinearOperator(shape, output_shape=shape, eval_fn=f, input_dtype=dt, output_dtype=dt)
+        if k == "while_const_bound":  # trip count is an array constant: lowers to `while`
+            nit = jnp.asarray(4)
+            f = lambda x: lax.fori_loop(0, nit, lambda i, v: 0.5 * (v + jnp.roll(v, -1)), x)
+            return linop.LinearOperator(shape, output_shape=shape, eval_fn=f, input_dtype=dt, output_dtype=dt)
+        if k == "scan_carry":  # running weighted sum over the entries of x: carry and stacked results
+            def f(x):
+                def body(c, xi):
+                    c = 0.75 * c + xi
+                    return c, c - 2 * xi
+
+                last, ys = lax.scan(body, jnp.zeros((), x.dtype), x)
+                return ys + last
+
+            return linop.LinearOperator(shape, output_shape=shape, eval_fn=f, adj_fn=_dense_adj(f, shape, dt), input_dtype=dt, output_dtype=dt)
+        if k == "scan_reverse_2d":  # reverse scan over the rows of a matrix
+            def f(x):
+                def body(c, row):
+                    c = 0.5 * c + row
+                    return c, c[::-1]
+
+                _, ys = lax.scan(body, jnp.zeros(x.shape[1:], x.dtype), x, reverse=True)
+                return ys
+
+            return linop.LinearOperator(shape, output_shape=shape, eval_fn=f, adj_fn=_dense_adj(f, shape, dt), input_dtype=dt, output_dtype=dt)
+        if k == "cond_const":
+            flag = jnp.asarray(2.0)
+            f = lambda x: lax.cond(flag > 1, lambda v: 2 * v - jnp.roll(v, 1), lambda v: v + 1, x)
+            return linop.LinearOperator(shape, output_shape=shape, eval_fn=f, input_dtype=dt, output_dtype=dt)
+        if k == "switch_const":
+            which = jnp.asarray(1)
+            f = lambda x: lax.switch(which, [lambda v: 2 * v + 1, lambda v: v[::-1] * 3, lambda v: v + 1], x)
+            return linop.LinearOperator(shape, output_shape=shape, eval_fn=f, input_dtype=dt, output_dtype=dt)
         raise KeyError(k)
     raise KeyError(name)
+
+
+def _dense_adj(f, shape, dt):
+    """explicit adjoint of a linear map through its dense matrix (jax.linear_transpose cannot transpose a `scan` with a
+    carry, so operators built on one have to supply `adj_fn`)"""
+    import jax.numpy as jnp
+
+    n = int(np.prod(shape))
+    M = jnp.stack([f(jnp.zeros(n, dt).at[j].set(1).reshape(shape)).ravel() for j in range(n)], axis=1)
+    MH = jnp.conj(M).T
+    return lambda y: (MH @ y.ravel()).reshape(shape)
 
 
 def all_classes():
@@ -273,10 +397,13 @@ def enumerate_ops(rng, thorough, per_class):
             sel = set(rng.choice(len(cfgs), size=per_class, replace=False).tolist())
             # configurations the grid marks as indispensable (e.g. mixed real/complex dtypes) are always included
             sel |= {i for i, c in enumerate(cfgs) if isinstance(c, dict) and c.get("must")}
-            if name in ("MixedDtype", "CalculusMixed", "Derived", "GenericLinearOperator"):
+            if name in ("MixedDtype", "CalculusMixed", "Derived", "GenericLinearOperator", "OutsideLinop", "WrappedOptions"):
                 sel = set(range(len(cfgs)))  # small hand-made grids: always complete
             cfgs = [cfgs[i] for i in sorted(sel)]
         for c in cfgs:
+            if isinstance(c, dict) and c.get("known_id") in KNOWN_IDS:
+                yield name, c, NotPresentedAsLinear(f"recorded-finding:{c['known_id']}")  # replayed from the corpus instead
+                continue
             try:
                 yield name, c, build(name, c)
             except Exception as e:  # noqa: BLE001
